@@ -14,7 +14,7 @@
      mark / resetoff   p, off, meta, boff, bmeta (NextOffset before), aoff, ameta (after)
      next      p, off, meta                 NextOffset() read by the driver
      commit_call / commit_ret               manual Commit() (one committer at a time)
-     creq      blocks [[p,off,meta]..], applied [[p,off,meta]..], conn, ks [[p,kind]..]
+     creq      blocks [[p,off,meta]..], applied [[p,off,meta]..], conn, ks [[p,kind,code]..], coordinator, moved
                                             an OffsetCommit request reached the coordinator
      close_call joined / close_ret          offsetManager.Close()
      store     vals [[p,off,meta]..]        the simulated coordinator's store (integrity check)
@@ -60,7 +60,7 @@ Stat0 == [traces |-> 0, marks |-> 0, effective |-> 0, flight_marks |-> 0, reques
           blocks |-> 0, flight_recommitted |-> 0, backwards_after_reset |-> 0, next_reads |-> 0,
           closes_premise |-> 0, closes |-> 0, faulty_requests |-> 0, closes_retried_partial_refusal |-> 0, closes_exhausted |-> 0,
           closes_unsteered |-> 0, commits_unsteered |-> 0, errors_delivered |-> 0, connection_errors_delivered |-> 0,
-          commits_failed_on_closed_connection |-> 0, coordinator_closed_idle_connection |-> 0, unscripted_connection_events |-> 0,
+          commits_failed_on_closed_connection |-> 0, requests_to_old_coordinator |-> 0, coordinator_moves |-> 0, coordinator_closed_idle_connection |-> 0, unscripted_connection_events |-> 0,
           sd_returns |-> 0, sd_hangs |-> 0, sd_panics |-> 0, sd_errors_channels_closed |-> 0]
 Bump(f) == [st EXCEPT ![f] = @ + 1]
 BumpBy(s, f, n) == [s EXCEPT ![f] = @ + n]
@@ -180,15 +180,19 @@ TCreq ==
      /\ winLow' = [p \in Parts |-> Inf]
      /\ finalsOk' = IF closing THEN finalsOk /\ allok ELSE finalsOk
      \* final attempts that carried p and did not get it stored
-     /\ refused' = [p \in Parts |-> IF closing /\ p \notin ap /\ (\E b \in blocks : b[1] = p) THEN refused[p] + 1 ELSE refused[p]]
+     \* ... by the CURRENT coordinator: an answer of a broker the group has moved away from is not a refusal of the
+     \* coordinator (the client was told to resolve the coordinator again and has to)
+     /\ refused' = [p \in Parts |-> IF closing /\ E.coordinator /\ p \notin ap /\ (\E b \in blocks : b[1] = p) THEN refused[p] + 1 ELSE refused[p]]
      \* a request that arrives came over a live connection: an earlier idle-connection fault has been consumed
      /\ pendingFault' = FALSE
      /\ UNCHANGED <<errs, envErrs, unsteer>>
      /\ flightMark' = [p \in Parts |-> IF p \in recommitted THEN FALSE ELSE flightMark[p]]
-     /\ st' = BumpBy(BumpBy(BumpBy(BumpBy(BumpBy(st, "requests", 1), "blocks", Cardinality(blocks)),
+     /\ st' = BumpBy(BumpBy(BumpBy(BumpBy(BumpBy(BumpBy(BumpBy(st, "requests", 1), "blocks", Cardinality(blocks)),
                      "flight_recommitted", Cardinality(recommitted)),
                      "backwards_after_reset", Cardinality(back)),
-                     "faulty_requests", IF allok THEN 0 ELSE 1)
+                     "faulty_requests", IF allok THEN 0 ELSE 1),
+                     "requests_to_old_coordinator", IF E.coordinator THEN 0 ELSE 1),
+                     "coordinator_moves", IF E.moved THEN 1 ELSE 0)
   /\ reqs' = reqs + 1
   /\ inFlight' = (cfg.mode = "win" /\ ~closing)
   /\ UNCHANGED <<cfg, pend, asked, touched, closing, joined>>
